@@ -79,6 +79,7 @@ TrChk ==
           /\ NonDecreasing(Ev.qs)                          \* quantile monotone on the grid of q
           /\ \A i \in 1..Len(Ev.qs) : Ev.min <= Ev.qs[i] /\ Ev.qs[i] <= Ev.max   \* in [min, max]
           /\ Ev.qs[1] = Ev.min /\ Ev.qs[Len(Ev.qs)] = Ev.max                     \* min at 0, max at 1
+          /\ Ev.first_bad = <<>>                           \* answers do not depend on which query flushes the buffer
           /\ Ev.cdf_ok /\ Ev.pmf_ok /\ Ev.empty_split_ok   \* cdf = rank at the split points, pmf sums to 1
           \* rank(quantile(q)) within the digest's resolution of q (10^-6 units)
           /\ \A i \in 1..Len(Ev.rq) : Ev.rq[i] - Ev.q6[i] <= Ev.res6 /\ Ev.q6[i] - Ev.rq[i] <= Ev.res6)
